@@ -27,6 +27,10 @@ def STR(x):
     return ("str", x)
 
 
+def SRC(forms):
+    return ("src", forms)
+
+
 def render(e):
     if isinstance(e, bool):
         return "true" if e else "false"
@@ -41,6 +45,8 @@ def render(e):
         return '"' + e[1].replace("\\", "\\\\").replace('"', '\\"') + '"'
     if k == "q":
         return "'" + render(e[1])
+    if k == "src":      # a string literal holding source text (for load-string): ("src", [forms])
+        return render(("str", " ".join(render(x) for x in e[1])))
     if k == "br":
         return "[" + " ".join(render(x) for x in e[1]) + "]"
     raise ValueError(e)
